@@ -1,6 +1,7 @@
 package main
 
 import (
+	"golang.org/x/tools/go/cfg"
 	"go/ast"
 	"go/types"
 )
@@ -58,6 +59,112 @@ func init() {
 								}
 							}
 						}
+					}
+					return true
+				})
+				// `undo := f()` … `undo()`: an undo function kept in a local and called by hand must be called on
+				// EVERY path that leaves the function — an early `return` between the two (the first failing
+				// form of a loader) otherwise skips it, and what f did is never undone
+				ast.Inspect(u.Decl.Body, func(n ast.Node) bool {
+					as, ok := n.(*ast.AssignStmt)
+					if !ok || len(as.Lhs) != 1 || len(as.Rhs) != 1 {
+						return true
+					}
+					ce, ok := ast.Unparen(as.Rhs[0]).(*ast.CallExpr)
+					if !ok || !isCloserFn(originOf(Callee(info, ce))) {
+						return true
+					}
+					x := identObj(info, as.Lhs[0])
+					if x == nil {
+						return true
+					}
+					bu := innermostBody(u.Decl, as)
+					deferred, escapes := false, false
+					ast.Inspect(bu.Body, func(m ast.Node) bool {
+						switch y := m.(type) {
+						case *ast.DeferStmt:
+							if identObj(info, y.Call.Fun) == x {
+								deferred = true
+							}
+							if l := deferredLit(y); l != nil {
+								for _, c2 := range callsIn(l.Body, false) {
+									if identObj(info, c2.Fun) == x {
+										deferred = true
+									}
+								}
+							}
+						case *ast.CallExpr:
+							for _, a := range y.Args {
+								if identObj(info, a) == x {
+									escapes = true
+								}
+							}
+						case *ast.ReturnStmt:
+							for _, r := range y.Results {
+								if identObj(info, r) == x {
+									escapes = true
+								}
+							}
+						case *ast.AssignStmt:
+							for _, r := range y.Rhs {
+								if identObj(info, r) == x {
+									escapes = true
+								}
+							}
+						case *ast.KeyValueExpr:
+							if identObj(info, y.Value) == x {
+								escapes = true
+							}
+						}
+						return true
+					})
+					if deferred || escapes {
+						return true
+					}
+					fc := c.cfgOf(u, bu.Lit)
+					loc, ok := fc.Locate(as)
+					if !ok {
+						return true
+					}
+					callsX := func(m ast.Node) bool {
+						for _, c2 := range callsIn(m, false) {
+							if identObj(info, c2.Fun) == x {
+								return true
+							}
+						}
+						return false
+					}
+					for _, m := range loc.B.Nodes[loc.I+1:] {
+						if callsX(m) {
+							return true
+						}
+					}
+					through := fc.blocksWith(callsX)
+					seen := map[*cfg.Block]bool{}
+					var leak func(b *cfg.Block) bool
+					leak = func(b *cfg.Block) bool {
+						if through[b] || seen[b] {
+							return false
+						}
+						seen[b] = true
+						if len(b.Succs) == 0 {
+							return true
+						}
+						for _, sx := range b.Succs {
+							if leak(sx) {
+								return true
+							}
+						}
+						return false
+					}
+					leaks := len(loc.B.Succs) == 0
+					for _, sx := range loc.B.Succs {
+						if leak(sx) {
+							leaks = true
+						}
+					}
+					if leaks {
+						bad[ce] = "the undo function is kept in `" + x.Name() + "` and called by hand, but a path leaves the function without calling it (an early return between the two): what the call did — the evaluation depth it entered — is never undone on that path; use `defer " + x.Name() + "()`"
 					}
 					return true
 				})
